@@ -4,27 +4,29 @@ From LE Require Import BFT.Contradiction Forge.GenInfo Forge.GenInfoProofs Forge
 Import ListNotations.
 Local Open Scope N_scope.
 
-(* ---------------------------------------------------------------- generator info (repaired code) *)
-(* over ALL event sequences accepted by the step relation (forge with a crash before the persist, between
-   persist and hand-off, or none; tip change by fork choice; chain switch with arbitrary deletes / applies;
-   restart), the headers handed on by one generator never contradict each other *)
-Theorem C15_never_self_contradicting : forall g t0 evs s,
-  tip_ok t0 = true -> run g init_header (init t0) evs = Some s ->
+(* ---------------------------------------------------------------- generator info (current code) *)
+(* over ALL event sequences — every event is enabled in every state: forge ticks (crash before the persist, between
+   persist and hand-off, or none), the tip becoming ANYTHING (own block processed, not yet processed or dropped;
+   fork choice; block deletes; a failed sync leaving a lower tip), syncing on/off, restarts — the headers handed on
+   by one generator never contradict each other.  No hypothesis on the environment. *)
+Theorem C15_never_self_contradicting : forall g t0 evs,
+  let s := run g init_header (init t0) evs in
   follower_ge (published s) /\
   forall b1 b2, In b1 (published s) -> In b2 (published s) -> b1 <> b2 -> contradicting b1 b2 = false.
 Proof. exact never_self_contradicting. Qed.
 
 (* without a crash between persist and hand-off the history is exactly a protocol follower of C07
-   (C07_follower_never_flagged applies), and the next header reports the largest height generated so far *)
-Theorem C15_crash_free_history_is_follower : forall g t0 evs s,
-  tip_ok t0 = true -> no_crash_after_persist evs -> run g init_header (init t0) evs = Some s ->
+   (C07_follower_never_flagged applies), and every header reports the largest height generated so far *)
+Theorem C15_crash_free_history_is_follower : forall g t0 evs,
+  no_crash_after_persist evs ->
+  let s := run g init_header (init t0) evs in
   follower (published s) /\
-  (forall t, mhg (fst (init_header (disk s) t g)) = max_height (published s)).
+  (forall t h info, init_header (disk s) t g = Some (h, info) -> mhg h = max_height (published s)).
 Proof. exact crash_free_history_is_follower. Qed.
 
 (* persist-then-hand-off: whatever was handed on is covered by the generator DB *)
-Theorem C15_persisted_covers_published : forall g t0 evs s,
-  tip_ok t0 = true -> run g init_header (init t0) evs = Some s ->
+Theorem C15_persisted_covers_published : forall g t0 evs,
+  let s := run g init_header (init t0) evs in
   match disk s with
   | Some i => max_height (published s) <= N.max (gi_height i) (gi_mhg i)
   | None => published s = []
@@ -35,16 +37,32 @@ Theorem C15_follower_ge_never_flagged : forall hs, follower_ge hs ->
   forall b1 b2, In b1 hs -> In b2 hs -> b1 <> b2 -> contradicting b1 b2 = false.
 Proof. exact follower_ge_never_flagged. Qed.
 
-(* the code before the fix (maxHeightGenerated = height of the LAST generated block) *)
+(* the guard refuses only what would not exceed the header generated last *)
+Theorem C15_forge_not_refused_when_exceeding : forall d t g,
+  match d with Some i => exceeds i (t_smhp t) (u32 (t_height t + 1)) = true | None => True end ->
+  exists h info, init_header d t g = Some (h, info).
+Proof. exact forge_not_refused_when_exceeding. Qed.
+
+(* the original code (maxHeightGenerated = height of the LAST generated block) *)
 Theorem C15_never_self_contradicting_orig_refuted :
-  exists g t0 evs s, tip_ok t0 = true /\ run g init_header_orig (init t0) evs = Some s /\
-    exists b1 b2, In b1 (published s) /\ In b2 (published s) /\ b1 <> b2 /\ contradicting b1 b2 = true.
+  exists g t0 evs b1 b2, let s := run g init_header_orig (init t0) evs in
+    In b1 (published s) /\ In b2 (published s) /\ b1 <> b2 /\ contradicting b1 b2 = true.
 Proof. exact never_self_contradicting_orig_refuted. Qed.
 
-(* non-vacuity: the witness events are accepted by the repaired model, with maxHeightGenerated 0,99,100,100 *)
+(* the first repair alone (largest height, no guard): double forging when the own block is not processed before the
+   next tick, and a contradicting header from a tip lowered by a failed sync *)
+Theorem C15_never_self_contradicting_noguard_refuted :
+  (exists g t0 b1 b2, let s := run g init_header_noguard (init t0) [EForge NoCrash; EForge NoCrash] in
+     In b1 (published s) /\ In b2 (published s) /\ b1 <> b2 /\ contradicting b1 b2 = true) /\
+  (exists g t0 t1 b1 b2, let s := run g init_header_noguard (init t0) [EForge NoCrash; ETip t1; EForge NoCrash] in
+     t_height t1 < t_height t0 /\ In b1 (published s) /\ In b2 (published s) /\ b1 <> b2 /\ contradicting b1 b2 = true).
+Proof. exact never_self_contradicting_noguard_refuted. Qed.
+
+(* non-vacuity: the witness events on the current code *)
 Example C15_ex_repaired :
-  exists s, run 7 init_header (init {| t_hmhp := 50; t_smhp := 50; t_height := 98 |}) w_evs = Some s /\
-            map mhg (published s) = [100; 100; 99; 0].
+  map (fun b => (height b, mhg b)) (published (run 7 init_header (init {| t_smhp := 50; t_height := 98 |}) w_evs))
+  = [(91, 100); (90, 100); (100, 99); (99, 0)] /\
+  length (published (run 7 init_header (init {| t_smhp := 3; t_height := 3 |}) [EForge NoCrash; EForge NoCrash])) = 1%nat.
 Proof. exact repaired_on_witness. Qed.
 
 (* ---------------------------------------------------------------- transaction selection *)
